@@ -488,6 +488,41 @@ func (w *World) judgeVerdicts(pn *Node, h int64, t time.Time, pv *cmttypes.Valid
 	}
 }
 
+// judgePrepareFailure: an honest proposer on a well-behaved execution layer must be able to build
+// its block (C08), and the execution layer never has a reason to refuse the system transactions
+// the consensus layer hands over (C06: consecutive per-module nonces, no gaps, no reuse).
+func (w *World) judgePrepareFailure(pn *Node, h int64, t time.Time, txs [][]byte, err error, spec RoundSpec) {
+	if pn.lastInjected {
+		return
+	}
+	for _, why := range pn.lastGoatRejects {
+		w.Stats.OracleEvals["C06"]++
+		shape := "undecodable"
+		if strings.Contains(why, "nonce") {
+			shape = "nonce"
+		}
+		w.violate("C06", "system-tx-refused-by-execution-layer", shape, "height %d: node %d's engine refused to build a payload on the system transactions handed over: %s", h, pn.ID, why)
+	}
+	// baseapp swallows a failing PrepareProposal handler and proposes the raw mempool instead: a
+	// proposal without the execution-block message is a failed build all the same
+	if err == nil && w.payloadTimestamp(txs) != 0 {
+		return
+	}
+	if err == nil {
+		err = fmt.Errorf("the proposal carries no execution-block message (handler error swallowed by baseapp): %s", pn.LastErr)
+	}
+	w.probe("prepare-failed-without-injected-fault")
+	w.note("prepare-failed", fmt.Sprintf("node %d tainted=%v rejects=%v: %v", pn.ID, w.Tainted, pn.lastGoatRejects, err))
+	if pn.lastEnvTrouble || w.Tainted {
+		return
+	}
+	shape := "other"
+	if len(pn.lastGoatRejects) > 0 {
+		shape = "system-tx-refused"
+	}
+	w.violate("C08", "honest-proposer-cannot-build", shape, "height %d: PrepareProposal on node %d failed with a synced, well-behaved execution layer and no injected fault: %v", h, pn.ID, err)
+}
+
 func (w *World) payloadTimestamp(txs [][]byte) uint64 {
 	if len(txs) == 0 {
 		return 0
